@@ -4,7 +4,12 @@ HttpProcessingError escaping feed_data/feed_eof is written as a replayable case 
 import os
 import sys
 
-import atheris
+# third-party fuzzing deps live in /verif/.deps; appended (not prepended) so that the venv's own packages win
+_DEPS = os.path.join(os.path.dirname(os.path.dirname(os.path.abspath(__file__))), ".deps")
+if _DEPS not in sys.path:
+    sys.path.append(_DEPS)
+
+import atheris  # noqa: E402
 
 os.environ.setdefault("AIOHTTP_NO_EXTENSIONS", "1")
 with atheris.instrument_imports(include=["aiohttp.http_parser", "aiohttp.streams"]):
